@@ -12,6 +12,7 @@ import OjgVerif.JPText.LemmasLeafy
 import OjgVerif.JPText.LemmasFilterExpr
 import OjgVerif.JPText.LemmasBracket
 import OjgVerif.JPText.LemmasBracketGen
+import OjgVerif.JPText.PrecNested2B
 /-! # C14 — JSONPath and script text forms round-trip
 
 Model: `JPText/Print.lean` (the printers), `JPText/Parse.lean` (jp/parse.go), over the regenerated
@@ -439,6 +440,15 @@ theorem nested_two_levels_witness :
               (.val (.flt [50, 46, 53]))))).filter, .child [100]])))
         (.val (.int 2))).filter] = true := by
   decide +kernel
+
+/-- … and the box: `$.a[?(@.b[?(@.c o2 1)].d o1 2)]` for EVERY ordered pair (o1, o2) of the 19 binary constructors,
+and with `!` around the inner and/or the outer equation for one operator per precedence level: both text forms
+round-trip and no deviation is named (kernel evaluation; finite evidence for the level the general theorems do
+not reach) -/
+theorem nested_two_levels_box :
+    ((nested2A ++ nested2B).all fun x => roundTripsExpr false x && roundTripsExpr true x &&
+      (devsExpr false x).isEmpty && (devsExpr true x).isEmpty) = true := by
+  rw [List.all_append, nested2A_all, nested2B_all]; rfl
 
 /-! ## API-built expressions with the `Bracket` flag fragment (`jp.B()`) -/
 
